@@ -370,6 +370,7 @@ struct Attempt {
   int nqueries = 0;
   std::string fallback_problem;
   std::vector<std::string> answers;  // kept only when logging
+  std::vector<uint64_t> ans;         // per panel query: hash of the rendered answer (and of the chain it starts)
 };
 
 std::vector<Query> build_panel(const std::string& bytes) {
@@ -400,6 +401,19 @@ std::vector<Query> build_panel(const std::string& bytes) {
         tp(last + y * 31556952LL + 15778476LL);
         cs(last + y * 31556952LL);
       }
+    }
+  }
+  // A DST footer repeats every year: walk two years after the end of the stored table in month steps, and
+  // the turn of each year in 12-hour steps (where rules with large or negative times cross each other).
+  if (sh.has_dst_footer && sh.last < (1LL << 58) && sh.last > -(1LL << 58)) {
+    Civil lc = civil_from_unix(sh.last);
+    for (int m = 0; m < 26; ++m) tp(sh.last + m * 2629746LL);
+    for (int64_t y = lc.y + 1; y <= lc.y + 3; ++y) {
+      // 00:00 UTC on 1 January of year y, from our own calendar arithmetic
+      int64_t days = 0;
+      { int64_t yy = y - 1; days = 365 * (y - 1970) + ((yy / 4 - yy / 100 + yy / 400) - (1969 / 4 - 1969 / 100 + 1969 / 400)); }
+      int64_t jan1 = days * 86400;
+      for (int h = -8; h <= 14; ++h) { tp(jan1 + h * 43200LL); if (h % 4 == 0) cs(jan1 + h * 43200LL); }
     }
   }
   // Civil extremes.
@@ -497,11 +511,16 @@ Outcome exec_c12(const C12Case& c, bool keep_log, Stats* stats) {
     if (a->ok) {
       set_phase("query");
       LibraryScope ls;
-      for (const Query& q : panel) {
+      // The second attempt asks the same panel in reverse order: on a zone the loader accepted, every
+      // answer must be a function of the bytes and the question alone, not of what was asked before.
+      a->ans.assign(panel.size(), 0);
+      for (size_t step = 0; step < panel.size(); ++step) {
+        const size_t qi = which == 0 ? step : panel.size() - 1 - step;
+        const Query& q = panel[qi];
         std::string r = run_query(tz, q);
-        d = hash_str(r, mix64(d, q.k));
+        uint64_t h = hash_str(r, mix64(0x51, q.k));
         a->nqueries++;
-        if (keep_log && which == 0) a->answers.push_back(query_text(q) + " = " + r);
+        if (keep_log) { if (a->answers.size() < panel.size()) a->answers.resize(panel.size()); a->answers[qi] = query_text(q) + " = " + r; }
         if (q.k == Q_NEXT || q.k == Q_PREV) {
           // Follow the chain (bounded).
           Query cq = q;
@@ -513,12 +532,14 @@ Outcome exec_c12(const C12Case& c, bool keep_log, Stats* stats) {
             int64_t t = cl.trans.time_since_epoch().count();
             if (cq.k == Q_PREV) { const cctz::time_zone::civil_lookup cl2 = tz.lookup(tr.from); t = std::min(t, static_cast<int64_t>(cl2.trans.time_since_epoch().count())); }
             char bb[64]; snprintf(bb, sizeof bb, "%" PRId64, t);
-            d = hash_str(bb, strlen(bb), d);
+            h = hash_str(bb, strlen(bb), h);
             if (cq.k == Q_NEXT) { if (t <= cq.a) break; cq.a = t; } else { if (t >= cq.a) { if (cq.a == INT64_MIN) break; cq.a -= 1; } else cq.a = t; }
             a->nqueries++;
           }
         }
+        a->ans[qi] = h;
       }
+      for (uint64_t h : a->ans) d = mix64(d, h);
       set_phase("tasks");
     }
     a->digest = d;
@@ -583,7 +604,12 @@ Outcome exec_c12(const C12Case& c, bool keep_log, Stats* stats) {
   for (int i = 0; i < 2; ++i) if (!att[i].fallback_problem.empty()) viol("c12:fallback", att[i].fallback_problem, "load #" + std::to_string(i));
   if (!att[0].skipped && !att[1].skipped) {
     if (att[0].ok != att[1].ok) viol("c12:nondeterminism(inproc)", "two loads of the same bytes disagree on success", std::string(att[0].ok ? "true" : "false") + " then " + (att[1].ok ? "true" : "false"));
-    else if (att[0].digest != att[1].digest) viol("c12:nondeterminism(inproc)", "two loads of the same bytes give different answers to the same query panel", hex64(att[0].digest) + " vs " + hex64(att[1].digest));
+    else if (att[0].digest != att[1].digest) {
+      size_t qi = 0;
+      while (qi < panel.size() && qi < att[0].ans.size() && qi < att[1].ans.size() && att[0].ans[qi] == att[1].ans[qi]) ++qi;
+      viol("c12:nondeterminism(inproc)", "two loads of the same bytes answer the same question differently (second copy asked in reverse order)",
+           (qi < panel.size() ? query_text(panel[qi]) : std::string("?")) + ": " + hex64(att[0].digest) + " vs " + hex64(att[1].digest));
+    }
   }
   for (const UbReport& u : rt.ub) {
     std::string fn = symbolize_fn(u.pc);
@@ -602,7 +628,7 @@ Outcome exec_c12(const C12Case& c, bool keep_log, Stats* stats) {
   if (keep_log) {
     out.log = log;
     out.log.push_back("bytes=" + std::to_string(bytes.size()) + " base=" + c.base + " tags=" + [&] { std::string s; for (auto& t : tags) s += t + " "; return s; }());
-    for (size_t i = 0; i < att[0].answers.size() && i < 60; ++i) out.log.push_back(att[0].answers[i]);
+    for (size_t i = 0; i < att[0].answers.size() && i < 60; ++i) out.log.push_back(att[0].answers[i] + ((i < att[1].answers.size() && att[1].answers[i] != att[0].answers[i]) ? "   <-- asked in reverse order: " + att[1].answers[i] : ""));
   }
   if (stats) {
     stats->add("steps", sr.steps);
